@@ -15,14 +15,20 @@ struct Fail {
     what: String,
 }
 
-#[derive(Default)]
 struct Obs {
+    hs: Hs,
     execs: u64,
     ties: u64,
     outside_exact_domain: u64,
     relations_checked: u64,
     fails: Vec<Fail>,
     known_class: bool,
+}
+
+impl Obs {
+    fn new(hs: Hs) -> Self {
+        Obs { hs, execs: 0, ties: 0, outside_exact_domain: 0, relations_checked: 0, fails: vec![], known_class: false }
+    }
 }
 
 /// compares (sig, reg) with the reference; equal registers with different items = tie (excused)
@@ -34,7 +40,12 @@ fn same(obs: &mut Obs, rel: &str, sig0: &[u64], reg0: &[f64], sig: &[u64], reg: 
             return;
         }
         if sig0[p] != sig[p] {
-            // same register value, different items : exact floating point tie between two items, legitimately order dependent
+            // same register value, different items: an exact floating point tie between two items is legitimately order
+            // dependent -- unless the two items were given the same hash by a pass-through hasher, which must be injective
+            if obs.hs.must_be_injective() && obs.hs.hash(sig0[p]) == obs.hs.hash(sig[p]) {
+                obs.fails.push(Fail { key: "C02/hasher-collision".into(), what: format!("{}: position {} holds item {} in one execution and item {} in another; the pass-through hasher {:?} gives both the hash {:#x}", rel, p, sig0[p], sig[p], obs.hs, obs.hs.hash(sig[p])) });
+                return;
+            }
             obs.ties += 1;
         }
     }
@@ -275,7 +286,15 @@ pub fn run(rep: &mut Report) {
         .map(|i| {
             let mut rng = rng_from(mix(&[seed, i]));
             let v = ALL_PV[(i % 4) as usize];
-            let hs = if v != Pv::P3aSha && rng.random_range(0..5) == 0 { Hs::NoHash } else { Hs::Fnv };
+            let hs = if v == Pv::P3aSha {
+                Hs::Fnv
+            } else {
+                match rng.random_range(0..10) {
+                    0 | 1 => Hs::NoHash,
+                    2 | 3 => Hs::NoHashMod,
+                    _ => Hs::Fnv,
+                }
+            };
             let n = match rng.random_range(0..10) {
                 0 => 1,
                 1 => 2,
@@ -292,13 +311,24 @@ pub fn run(rep: &mut Report) {
                 _ => rng.random_range(129..1025),
             };
             let class = rng.random_range(0..8u32);
-            let ids = fresh_ids(&mut rng, n, PH);
+            // identifiers: random u64, or (realistic for pre-hashed data) ranks: consecutive integers from a base, multiples of 256
+            let ids: Vec<u64> = match rng.random_range(0..6) {
+                0 => {
+                    let base = [1u64, 250, 65_530, 16_777_210, (1 << 32) - 5, (1 << 40) + 3][rng.random_range(0..6)];
+                    (0..n as u64).map(|k| base + k).collect()
+                }
+                1 => {
+                    let step = [256u64, 65_536, 1 << 24, 255, 257][rng.random_range(0..5)];
+                    (1..=n as u64).map(|k| k * step).collect()
+                }
+                _ => fresh_ids(&mut rng, n, PH),
+            };
             let ws = gen_weights(&mut rng, n, class);
             let w: Vec<(u64, f64)> = ids.iter().cloned().zip(ws.iter().cloned()).collect();
             let do_singles = n <= 30 || (i % 8 == 0 && n * m <= 40_000);
-            let mut obs = Obs::default();
+            let mut obs = Obs::new(hs);
             let r = catch(std::panic::AssertUnwindSafe(|| {
-                let mut o = Obs::default();
+                let mut o = Obs::new(hs);
                 check_set(v, hs, m, &w, &mut rng, do_singles, &mut o);
                 o
             }));
@@ -333,6 +363,39 @@ pub fn run(rep: &mut Report) {
             rep.violation(&f.key, &format!("set{}", i), f.what, case.clone().unwrap_or(json!(null)));
         }
     }
+    // ---- pass-through hashers must be injective (two items with the same hash replay the same race: the signature
+    // could not be a function of the set). Realistic pre-hashed identifiers: ranks, shifted ranks, random words.
+    if rep.want("hasher-injectivity") {
+        use std::hash::BuildHasher;
+        let mut vals: Vec<u64> = (0..200_000u64).collect();
+        for k in 1..=4096u64 {
+            for sh in [8u32, 16, 24, 32, 40, 48, 56] {
+                vals.push(k << sh);
+                vals.push((k << sh) | 1);
+            }
+        }
+        let mut rng = rng_from(subseed(rep.seed, "C02/inj", &[]));
+        for _ in 0..200_000 {
+            vals.push(rng.next_u64());
+        }
+        vals.sort_unstable();
+        vals.dedup();
+        for (name, f) in [
+            ("superminhasher::NoHashHasher", Box::new(|x: u64| std::hash::BuildHasherDefault::<probminhash::superminhasher::NoHashHasher>::default().hash_one(x)) as Box<dyn Fn(u64) -> u64>),
+            ("nohasher::NoHashHasher", Box::new(|x: u64| std::hash::BuildHasherDefault::<probminhash::nohasher::NoHashHasher>::default().hash_one(x))),
+            ("superminhasher::NoHashHasher on u32", Box::new(|x: u64| std::hash::BuildHasherDefault::<probminhash::superminhasher::NoHashHasher>::default().hash_one(x as u32))),
+            ("nohasher::NoHashHasher on u32", Box::new(|x: u64| std::hash::BuildHasherDefault::<probminhash::nohasher::NoHashHasher>::default().hash_one(x as u32))),
+        ] {
+            let is32 = name.ends_with("u32");
+            let mut hv: Vec<(u64, u64)> = vals.iter().filter(|x| !is32 || **x <= u32::MAX as u64).map(|&x| (f(x), x)).collect();
+            hv.sort_unstable();
+            rep.evaluations += hv.len() as u64;
+            rep.count("hasher_injectivity.values", hv.len() as u64);
+            if let Some(w) = hv.windows(2).find(|w| w[0].0 == w[1].0) {
+                rep.violation("C02/hasher-collision", "hasher-injectivity", format!("{} gives the items {} and {} the same hash {:#x}", name, w[0].1, w[1].1, w[0].0), json!({"hasher": name, "items": [w[0].1, w[1].1]}));
+            }
+        }
+    }
     // ---- dedicated cell of the known finding class: total weight below the representable race horizon
     if rep.want("tiny") {
         let seed = subseed(rep.seed, "C02/tiny", &[]);
@@ -345,9 +408,9 @@ pub fn run(rep: &mut Report) {
             let ids = fresh_ids(&mut rng, n, PH);
             let e = rng.random_range(-307.6..-305.5);
             let w: Vec<(u64, f64)> = ids.iter().map(|&d| (d, 10f64.powf(e) * rng.random_range(0.5..1.0))).collect();
-            let mut obs = Obs::default();
+            let mut obs = Obs::new(Hs::Fnv);
             let res = catch(std::panic::AssertUnwindSafe(|| {
-                let mut o = Obs::default();
+                let mut o = Obs::new(Hs::Fnv);
                 let mut r2 = rng_from(mix(&[seed, t as u64]));
                 check_set(v, Hs::Fnv, m, &w, &mut r2, false, &mut o);
                 o
